@@ -12,10 +12,14 @@ package main
 //   r<E>:<p>               reply to E's current (connection, wire id) with payload nonce p
 //   u<c>:<id>:<p>          reply with wire id `id`, payload nonce p on connection c (unsolicited/dup/late)
 //   c<E>                   cancel E's context
-//   x<c>                   the server closes connection c
+//   x<c>                   the server closes connection c (stalled writes on it fail, the others complete)
+//   g / o                  the server stops / resumes reading: writes stall inside the fake connection (on tcp the
+//                          write lock stays taken: later exchanges are registered and wait for it) / complete
+//   f<k>                   the stalled writes fail (k=1 on udp: EMSGSIZE, the connection stays open)
 //   pre=<n>: n sequential exchanges (query, correct reply, return) before the ops, summarised.
 // out  : pre=<n>:<maxid+1>:<uniq>+...;<wrong messages>;<errors> log=<group>|<group>|...  (one group per op)
 //   q<E>:<c>:<id>  i<c>:<id>:<p>|i-  m<E>:<ID>:<p>  e<E>:cancel|err  x<c>|x-  t<E>
+//   w<E>:<c>:<id> E's write (wire id id) is stalled   b<E> E is registered and waits for the tcp write lock
 //   plus a last group: k<c> for every exhausted connection the client closed (end of life)
 
 import (
@@ -31,6 +35,7 @@ import (
 	"strings"
 	"sync"
 	"sync/atomic"
+	"syscall"
 	"time"
 
 	"github.com/IrineSistiana/mosproxy/internal/dnsmsg"
@@ -62,8 +67,24 @@ type c05ex struct {
 	cancel context.CancelFunc
 	res    *c05res
 	nq     int    // queries of this exchange seen by the server
-	last   [2]int // (conn, wire id) of the last one
+	last   [2]int // (conn, wire id) of the last one (also of a stalled write)
+	// stalled writes
+	startOp    int      // index of the op that started the exchange
+	regOp      int      // index of the op during which it was seen registered (stalled write / lock waiter)
+	held       *c05held // its write is stalled inside the fake connection
+	nheld      int      // stalled writes so far
+	inWriteTCP bool     // it was seen selecting on the tcp write lock
+	blocked    bool     // ... and is taken to be waiting for that lock
 }
+
+// a write held back by the fake connection ("the server is not reading")
+type c05held struct {
+	e, c, id int
+	state    int // 0 pending, 1 complete it, 2 fail it
+	err      error
+}
+
+type c05inj struct{ c, id, op int }
 
 type c05world struct {
 	mu    sync.Mutex
@@ -72,6 +93,13 @@ type c05world struct {
 	conns []*c05conn
 	exs   map[int]*c05ex
 	newQ  []c05query // not yet reported
+	newW  []c05query // stalled writes not yet reported
+	newB  []int      // lock waiters not yet reported
+	// the server is not reading: writes stall
+	gated  bool
+	gatedA atomic.Bool
+	inj    []c05inj // replies sent so far
+	opIdx  int
 	// prefix phase
 	auto    bool
 	autoBad int
@@ -89,6 +117,8 @@ type c05conn struct {
 	srvClosed bool
 	cliClosed bool
 	wbuf      []byte
+	held      []*c05held
+	wbroken   bool // writes fail from now on
 	// prefix statistics
 	nq    int
 	maxid int
@@ -206,6 +236,7 @@ func (c *c05conn) gotQuery(m []byte) {
 	if x != nil {
 		x.nq++
 		x.last = [2]int{c.idx, id}
+		x.blocked = false
 	}
 	w.newQ = append(w.newQ, c05query{e, c.idx, id, intact})
 	w.cond.Broadcast()
@@ -215,8 +246,51 @@ func (c *c05conn) Write(b []byte) (int, error) {
 	w := c.w
 	w.mu.Lock()
 	defer w.mu.Unlock()
-	if c.cliClosed || c.srvClosed {
+	if c.cliClosed || c.srvClosed || c.wbroken {
 		return 0, net.ErrClosed
+	}
+	if w.gated && !w.auto {
+		// the server is not reading: the write stalls (its bytes, hence the wire id, are known)
+		msg := append([]byte(nil), b...)
+		if w.tcp {
+			if len(msg) < 2 || int(binary.BigEndian.Uint16(msg))+2 != len(msg) {
+				return 0, io.ErrShortWrite // the transport writes whole frames
+			}
+			msg = msg[2:]
+		}
+		if len(msg) < 12 {
+			return 0, io.ErrShortWrite
+		}
+		hw := &c05held{e: c05exOfQuery(msg), c: c.idx, id: int(binary.BigEndian.Uint16(msg))}
+		c.held = append(c.held, hw)
+		x := w.exs[hw.e]
+		if x != nil {
+			x.held = hw
+			x.regOp = w.opIdx
+			x.nheld++
+			x.last = [2]int{c.idx, hw.id}
+			x.blocked = false
+		}
+		w.newW = append(w.newW, c05query{hw.e, c.idx, hw.id, x != nil && string(x.q[2:]) == string(msg[2:])})
+		w.cond.Broadcast()
+		for hw.state == 0 {
+			w.cond.Wait()
+		}
+		for i, h := range c.held {
+			if h == hw {
+				c.held = append(c.held[:i], c.held[i+1:]...)
+				break
+			}
+		}
+		if x != nil {
+			x.held = nil
+		}
+		if hw.state == 2 {
+			w.cond.Broadcast()
+			return 0, hw.err
+		}
+		c.gotQuery(msg)
+		return len(b), nil
 	}
 	if !w.tcp {
 		c.gotQuery(append([]byte(nil), b...))
@@ -359,9 +433,72 @@ func (w *c05world) startEx(tr *transport.PipelineTransport, e, cid int, gate *c0
 	w.startExFn(tr.ExchangeContext, e, cid, gate)
 }
 
+// c05ctx is the caller's context. While writes stall it notes when the exchange evaluates
+// ctx.Done() inside writeTCP, i.e. in the select on the tcp write lock: by then addQueueC is done.
+type c05ctx struct {
+	context.Context
+	w *c05world
+	x *c05ex
+}
+
+func (c *c05ctx) Done() <-chan struct{} {
+	if c.w.gatedA.Load() && c05inWriteTCP() {
+		c.w.mu.Lock()
+		c.x.inWriteTCP = true
+		c.w.cond.Broadcast()
+		c.w.mu.Unlock()
+	}
+	return c.Context.Done()
+}
+
+func c05inWriteTCP() bool {
+	var pcs [24]uintptr
+	n := runtime.Callers(2, pcs[:])
+	fr := runtime.CallersFrames(pcs[:n])
+	for {
+		f, more := fr.Next()
+		if strings.HasSuffix(f.Function, "(*pipelineConn).writeTCP") {
+			return true
+		}
+		if !more {
+			return false
+		}
+	}
+}
+
+// the connection that has a stalled write (-1: none)
+func (w *c05world) heldConn() int {
+	for _, c := range w.conns {
+		if len(c.held) > 0 && !c.srvClosed && !c.cliClosed {
+			return c.idx
+		}
+	}
+	return -1
+}
+
+// started: the start of x has had its observable effect
+func (w *c05world) started(x *c05ex, nq, nheld int) bool {
+	if x.nq > nq || x.res != nil || x.nheld > nheld {
+		return true
+	}
+	// tcp, behind a stalled write: the exchange is registered and waits for the write lock
+	return w.gated && w.tcp && x.inWriteTCP && x.held == nil && w.heldConn() >= 0
+}
+
+// after started(): classify a lock waiter (w.mu held)
+func (w *c05world) noteBlocked(x *c05ex, nq, nheld int) {
+	if x.nq == nq && x.res == nil && x.nheld == nheld {
+		x.blocked = true
+		x.regOp = w.opIdx
+		x.last = [2]int{w.heldConn(), -1}
+		w.newB = append(w.newB, x.e)
+	}
+}
+
 func (w *c05world) startExFn(fn c05exFn, e, cid int, gate *c05gate) {
-	ctx, cancel := context.WithCancel(context.Background())
-	x := &c05ex{e: e, cid: cid, q: c05query_(e, cid), cancel: cancel, last: [2]int{-1, -1}}
+	cctx, cancel := context.WithCancel(context.Background())
+	x := &c05ex{e: e, cid: cid, q: c05query_(e, cid), cancel: cancel, last: [2]int{-1, -1}, startOp: w.opIdx}
+	ctx := &c05ctx{Context: cctx, w: w, x: x}
 	w.exs[e] = x
 	qb := append([]byte(nil), x.q...)
 	go func() {
@@ -405,6 +542,25 @@ func (w *c05world) collect() []string {
 			toks = append(toks, fmt.Sprintf("z%d", e)) // the caller's query buffer was modified
 		}
 	}
+	ws := w.newW
+	w.newW = nil
+	sort.SliceStable(ws, func(i, j int) bool {
+		if ws[i].c != ws[j].c {
+			return ws[i].c < ws[j].c
+		}
+		return ws[i].id < ws[j].id
+	})
+	for _, q := range ws {
+		toks = append(toks, fmt.Sprintf("w%d:%d:%d", q.e, q.c, q.id))
+		if !q.intact {
+			toks = append(toks, fmt.Sprintf("y%d", q.e))
+		}
+	}
+	sort.Ints(w.newB)
+	for _, e := range w.newB {
+		toks = append(toks, fmt.Sprintf("b%d", e))
+	}
+	w.newB = nil
 	qs := w.newQ
 	w.newQ = nil
 	sort.SliceStable(qs, func(i, j int) bool {
@@ -439,10 +595,12 @@ func (w *c05world) inject(ci, id, p int, q []byte) []string {
 	// which open exchange is expected to complete?
 	expect := -1
 	for e, x := range w.exs {
-		if x.res == nil && x.last == [2]int{ci, id} {
+		// (an exchange whose write is stalled, or that waits for the write lock, is not in its select)
+		if x.res == nil && x.held == nil && !x.blocked && x.nq > 0 && x.last == [2]int{ci, id} {
 			expect = e
 		}
 	}
+	w.inj = append(w.inj, c05inj{ci, id, w.opIdx})
 	c.in = append(c.in, c05frame(w.tcp, c05reply(id, p, q)))
 	w.cond.Broadcast()
 	// barrier: the read loop is back in Read with nothing left to consume
@@ -452,6 +610,108 @@ func (w *c05world) inject(ci, id, p int, q []byte) []string {
 	if expect >= 0 {
 		if !w.wait(func() bool { return w.exs[expect].res != nil }) {
 			toks = append(toks, fmt.Sprintf("t%d", expect))
+		}
+	}
+	return toks
+}
+
+func (w *c05world) setGate(v bool) {
+	w.gated = v
+	w.gatedA.Store(v)
+}
+
+// a reply was sent for x's (connection, wire id) after x was seen registered and before x reached
+// its select: it sits in x's channel
+func (w *c05world) buffered(x *c05ex) bool {
+	for _, i := range w.inj {
+		if i.c == x.last[0] && i.id == x.last[1] && i.op > x.regOp {
+			return true
+		}
+	}
+	return false
+}
+
+// release every stalled write: st=1 complete, st=2 fail with err (w.mu held)
+func (w *c05world) releaseHeld(only int, st int, err error) {
+	for _, c := range w.conns {
+		if only >= 0 && c.idx != only {
+			continue
+		}
+		for _, h := range c.held {
+			if h.state == 0 {
+				h.state, h.err = st, err
+			}
+		}
+	}
+	w.cond.Broadcast()
+}
+
+// the server reads again (w.mu held)
+func (w *c05world) openGate() []string {
+	var toks []string
+	type pend struct {
+		x  *c05ex
+		nq int
+	}
+	var ps []pend
+	for _, x := range w.exs {
+		if x.res == nil && (x.held != nil || x.blocked) {
+			ps = append(ps, pend{x, x.nq})
+		}
+	}
+	sort.Slice(ps, func(i, j int) bool { return ps[i].x.e < ps[j].x.e })
+	w.setGate(false)
+	w.releaseHeld(-1, 1, nil)
+	for _, p := range ps {
+		p := p
+		if !w.wait(func() bool { return p.x.nq > p.nq || p.x.res != nil }) {
+			toks = append(toks, fmt.Sprintf("t%d", p.x.e))
+		}
+	}
+	// whoever had a reply waiting in its channel returns at once
+	for _, p := range ps {
+		p := p
+		if p.x.res == nil && w.buffered(p.x) {
+			if !w.wait(func() bool { return p.x.res != nil }) {
+				toks = append(toks, fmt.Sprintf("t%d", p.x.e))
+			}
+		}
+	}
+	return toks
+}
+
+// connection ci dies: the server closes it (viaWrite: a stalled write on it fails first) (w.mu held)
+func (w *c05world) killConn(ci int, viaWrite bool) []string {
+	c := w.conns[ci]
+	toks := []string{fmt.Sprintf("x%d", ci)}
+	type vic struct {
+		x  *c05ex
+		nq int
+	}
+	var vs []vic
+	for _, x := range w.exs {
+		if x.res == nil && x.last[0] == ci {
+			vs = append(vs, vic{x, x.nq})
+		}
+	}
+	sort.Slice(vs, func(i, j int) bool { return vs[i].x.e < vs[j].x.e })
+	c.wbroken = true
+	nheld := len(c.held)
+	w.releaseHeld(ci, 2, io.ErrClosedPipe)
+	if !viaWrite || nheld == 0 {
+		c.srvClosed = true
+	}
+	w.cond.Broadcast()
+	// the client notices (read or write error -> closeWithErr -> Close) before anything else happens
+	if !w.wait(func() bool { return c.cliClosed }) {
+		toks = append(toks, fmt.Sprintf("t%d", 2000000+ci))
+	}
+	c.srvClosed = true
+	w.cond.Broadcast()
+	for _, v := range vs {
+		v := v
+		if !w.wait(func() bool { return v.x.res != nil || v.x.nq > v.nq }) {
+			toks = append(toks, fmt.Sprintf("t%d", v.x.e))
 		}
 	}
 	return toks
@@ -492,6 +752,11 @@ func c05runOnce(cs string) string {
 	})
 	defer func() {
 		w.mu.Lock()
+		w.setGate(false)
+		for _, c := range w.conns {
+			c.wbroken = true
+		}
+		w.releaseHeld(-1, 2, io.ErrClosedPipe)
 		for _, x := range w.exs {
 			x.cancel()
 		}
@@ -560,9 +825,15 @@ func c05runOnce(cs string) string {
 		}
 		var toks []string
 		w.mu.Lock()
+		w.opIdx++
 		if w.timeouts > 0 {
 			// an expected effect did not show up: the rest of the script is not run
 			// (but what the open exchanges got so far is collected: cancel them all and flush)
+			w.setGate(false)
+			for _, c := range w.conns {
+				c.wbroken = true
+			}
+			w.releaseHeld(-1, 2, io.ErrClosedPipe)
 			for _, x := range w.exs {
 				x.cancel()
 			}
@@ -603,9 +874,10 @@ func c05runOnce(cs string) string {
 				for i, a := range parts {
 					w.startExFn(fns[i], a[0], a[1], nil)
 					x := w.exs[a[0]]
-					if !w.wait(func() bool { return x.nq > 0 || x.res != nil }) {
+					if !w.wait(func() bool { return w.started(x, 0, 0) }) {
 						toks = append(toks, fmt.Sprintf("t%d", a[0]))
 					}
+					w.noteBlocked(x, 0, 0)
 				}
 				break
 			}
@@ -640,14 +912,16 @@ func c05runOnce(cs string) string {
 			}
 			for _, e := range es {
 				x := w.exs[e]
-				if !w.wait(func() bool { return x.nq > 0 || x.res != nil }) {
+				if !w.wait(func() bool { return w.started(x, 0, 0) }) {
 					toks = append(toks, fmt.Sprintf("t%d", e))
 				}
+				w.noteBlocked(x, 0, 0)
 			}
 		case 'r':
 			a := c05parseNats(op[1:])
 			x := w.exs[a[0]]
-			if len(a) != 2 || x == nil || x.nq == 0 {
+			if len(a) != 2 || x == nil || (x.nq == 0 && x.held == nil) || x.blocked {
+				// (the server has not seen a byte of a query that waits for the write lock)
 				toks = []string{"i-"}
 			} else {
 				toks = w.inject(x.last[0], x.last[1], a[1], x.q)
@@ -661,7 +935,8 @@ func c05runOnce(cs string) string {
 			}
 		case 'c':
 			e := atoi(op[1:])
-			if x := w.exs[e]; x != nil && x.res == nil {
+			if x := w.exs[e]; x != nil && x.res == nil && x.held == nil {
+				// (cancelling an exchange that sits inside a stalled Write has no effect before the write returns)
 				x.cancel()
 				if !w.wait(func() bool { return x.res != nil }) {
 					toks = append(toks, fmt.Sprintf("t%d", e))
@@ -672,27 +947,48 @@ func c05runOnce(cs string) string {
 			if ci < 0 || ci >= len(w.conns) || w.conns[ci].srvClosed {
 				toks = []string{"x-"}
 			} else {
-				toks = []string{fmt.Sprintf("x%d", ci)}
-				type vic struct {
-					x  *c05ex
-					nq int
+				// stalled writes on ci fail, the server reads the other connections again
+				gated := w.gated
+				w.setGate(false)
+				toks = w.killConn(ci, false)
+				if gated {
+					toks = append(toks, w.openGate()...)
 				}
-				var vs []vic
-				for _, x := range w.exs {
-					if x.res == nil && x.last[0] == ci {
-						vs = append(vs, vic{x, x.nq})
+			}
+		case 'g':
+			w.setGate(true)
+		case 'o':
+			if w.gated {
+				toks = w.openGate()
+			}
+		case 'f':
+			if w.gated {
+				w.setGate(false)
+				if !w.tcp && op == "f1" {
+					// "message too long": the exchanges get the error, the connection stays
+					type vic struct {
+						x  *c05ex
+						nq int
 					}
-				}
-				w.conns[ci].srvClosed = true
-				w.cond.Broadcast()
-				// the client notices (read error -> closeWithErr -> Close) before anything else happens
-				if !w.wait(func() bool { return w.conns[ci].cliClosed }) {
-					toks = append(toks, fmt.Sprintf("t%d", 2000000+ci))
-				}
-				for _, v := range vs {
-					v := v
-					if !w.wait(func() bool { return v.x.res != nil || v.x.nq > v.nq }) {
-						toks = append(toks, fmt.Sprintf("t%d", v.x.e))
+					var vs []vic
+					for _, x := range w.exs {
+						if x.res == nil && x.held != nil {
+							vs = append(vs, vic{x, x.nq})
+						}
+					}
+					sort.Slice(vs, func(i, j int) bool { return vs[i].x.e < vs[j].x.e })
+					w.releaseHeld(-1, 2, syscall.EMSGSIZE)
+					for _, v := range vs {
+						v := v
+						if !w.wait(func() bool { return v.x.res != nil || v.x.nq > v.nq }) {
+							toks = append(toks, fmt.Sprintf("t%d", v.x.e))
+						}
+					}
+				} else {
+					for ci := range w.conns {
+						if len(w.conns[ci].held) > 0 {
+							toks = append(toks, w.killConn(ci, true)...)
+						}
 					}
 				}
 			}
@@ -887,6 +1183,110 @@ func c05script(r *rand.Rand, tcp bool, mc, pre, nops, maxOpen, maxE int) string 
 	return fmt.Sprintf("tcp=%s mc=%d pre=%d ops=%s", b2s(tcp), mc, pre, g.finish())
 }
 
+// c05stall: a reply is delivered into the channel of an exchange that has not reached its select
+// (its write is stalled, or - tcp - it waits for the write lock behind a stalled write) and that then
+// leaves through ctx.Done(), c.ctx.Done() or a write error; fresh exchanges follow on the same and on
+// another connection. One connection, started one by one: exchange number n gets wire id n.
+func c05stall(r *rand.Rand, tcp bool) string {
+	g := &c05gen{r: r, lastP: map[int]int{}, maxE: 1 << 30, conns: 1}
+	add := func(f string, a ...any) { g.ops = append(g.ops, fmt.Sprintf(f, a...)) }
+	id := map[int]int{} // wire id on connection 0
+	next := 0
+	start := func() int {
+		e := g.nextE
+		add("s%s", g.start())
+		id[e] = next
+		next++
+		return e
+	}
+	// warm-up
+	var warm []int
+	for i := r.Intn(3); i > 0; i-- {
+		warm = append(warm, start())
+	}
+	for _, e := range warm {
+		if r.Intn(2) == 0 {
+			add("r%d:%d", e, g.nonce())
+		}
+	}
+	add("g")
+	var hs []int
+	for i := 1 + r.Intn(4); i > 0; i-- {
+		hs = append(hs, start())
+	}
+	// replies for the registered exchanges (and, sometimes, for an id not handed out yet)
+	for _, e := range hs {
+		switch r.Intn(6) {
+		case 0:
+		case 1:
+			add("r%d:%d", e, g.nonce()) // i- when e waits for the write lock
+		case 2:
+			p := g.nonce()
+			add("u0:%d:%d", id[e], p)
+			add("u0:%d:%d", id[e], p)
+		default:
+			add("u0:%d:%d", id[e], g.nonce())
+		}
+	}
+	if r.Intn(3) == 0 {
+		add("u0:%d:%d", next, g.nonce())
+	}
+	alive := true
+	switch v := r.Intn(6); {
+	case v <= 1: // (tcp) lock waiters give up, then the server reads again
+		for _, e := range hs[1:] {
+			if r.Intn(3) > 0 {
+				add("c%d", e)
+			}
+		}
+		if v == 0 && len(hs) > 1 {
+			add("u0:%d:%d", id[hs[len(hs)-1]], g.nonce()) // late, after the cancel
+		}
+		add("o")
+	case v == 2:
+		add("x0")
+		alive = false
+	case v == 3:
+		add("f0")
+		alive = false
+	case v == 4:
+		add("f1")
+		alive = !tcp
+	default:
+		add("o")
+	}
+	fresh := func(n int) {
+		var es []int
+		for i := 0; i < n; i++ {
+			e := g.nextE
+			add("s%s", g.start())
+			es = append(es, e)
+			if r.Intn(2) == 0 {
+				j := r.Intn(len(es))
+				add("r%d:%d", es[j], g.nonce())
+				es = append(es[:j], es[j+1:]...)
+			}
+		}
+		for _, e := range es {
+			add("r%d:%d", e, g.nonce())
+		}
+	}
+	fresh(3 + r.Intn(6))
+	// the survivors of the stall get their answers, too
+	for _, e := range hs {
+		if r.Intn(2) == 0 {
+			add("r%d:%d", e, g.nonce())
+		}
+	}
+	if alive {
+		add("x0")
+	} else {
+		add("x1")
+	}
+	fresh(2 + r.Intn(5))
+	return fmt.Sprintf("tcp=%s mc=64 pre=0 ops=%s", b2s(tcp), g.finish())
+}
+
 func c05gen_(r *rand.Rand, thorough bool, emit func(c, cat string)) {
 	n := 1200
 	if thorough {
@@ -908,6 +1308,19 @@ func c05gen_(r *rand.Rand, thorough bool, emit func(c, cat string)) {
 		default: // short
 			emit(c05script(r, tcp, 64, 0, 3+r.Intn(10), 1+r.Intn(3), 1<<30), cat+"-short")
 		}
+	}
+	// stalled writes: replies that reach an exchange's channel before the exchange reaches its select
+	ns := 80
+	if thorough {
+		ns = 1500
+	}
+	for i := 0; i < ns; i++ {
+		tcp := r.Intn(2) == 0
+		cat := "udp"
+		if tcp {
+			cat = "tcp"
+		}
+		emit(c05stall(r, tcp), cat+"-stall")
 	}
 	// wide: several hundred exchanges in flight on one connection (wire ids beyond one byte)
 	nw := 4
